@@ -33,6 +33,43 @@ func runC01(c *Ctx) {
 	c01Choice(c)
 	c01SelectorRewrite(c)
 	c01StockHookAndVariants(c)
+	// (i) the hook slot and the count belong to one handler per publisher, and the stop point is never forgotten
+	handlerLookupCreateAtomic(c, "C01.i-one-handler-per-publisher")
+	c01LatestNeverForgotten(c)
+}
+
+// c01LatestNeverForgotten: the latest-synced record is the stop point of the
+// next sync ("back to, but excluding, the publisher's last synced
+// advertisement"): it is only ever replaced by a newer value, never deleted.
+func c01LatestNeverForgotten(c *Ctx) {
+	del := Or(Call("sync.Map).Delete"), Call("sync.Map).LoadAndDelete"), Call("sync.Map).CompareAndDelete"), Call("sync.Map).Clear"))
+	find := func(cc *Ctx, fns []*Fn) []CallSite {
+		var out []CallSite
+		for _, f := range fns {
+			for _, cs := range cc.Calls(f.SSA, del) {
+				if len(cs.X.Args) > 0 {
+					m := strip(cs.X.Args[0])
+					if m.Op == "field" && fieldOwner(m) == "latestSyncHandler" {
+						out = append(out, cs)
+					}
+				}
+			}
+		}
+		return out
+	}
+	sites := find(c, c.Funcs(dagsyncPkg))
+	for _, cs := range sites {
+		c.Bad("C01.c-latest-sync-never-forgotten", c.short(topFunc(cs.Fn).String())+" › delete", cs.In.Pos(), "the recorded latest sync of a publisher is deleted: the next sync of that publisher has no stop point and hands the stop block and everything older to the hook again")
+	}
+	if len(sites) == 0 {
+		c.OK("C01.c-latest-sync-never-forgotten", "dagsync › latest-sync record", token.NoPos, "no deletion from the latest-sync record anywhere in the package")
+	}
+	if pc := c.posex(); pc == nil {
+		c.Unk("C01.c-latest-sync-never-forgotten", "positive example", token.NoPos, "positive example package could not be loaded")
+	} else {
+		c.Check(len(find(pc, pc.Funcs("ipnicheck/testdata/posex"))) == 1, "C01.c-latest-sync-never-forgotten", "positive example fires", token.NoPos, "rule finds the seeded deletion in the embedded example", "rule did not fire on its positive example: it would pass vacuously")
+	}
+	c.Floor("C01.c-latest-sync-never-forgotten", 2)
 }
 
 // (a)
@@ -1000,6 +1037,20 @@ func counterOtherWrites(c *Ctx, inc *ssa.Store) []string {
 					st, ok := in.(*ssa.Store)
 					if !ok || st == inc {
 						return
+					}
+					// the whole struct overwritten (e.g. *ss = T{}) writes the field too
+					if _, isFA := st.Addr.(*ssa.FieldAddr); !isFA {
+						if pt, ok := st.Addr.Type().Underlying().(*types.Pointer); ok {
+							if stt, ok := pt.Elem().Underlying().(*types.Struct); ok {
+								for i := 0; i < stt.NumFields(); i++ {
+									if stt.Field(i) == fld {
+										if al, fresh := st.Addr.(*ssa.Alloc); !fresh || al.Block() != st.Block() {
+											out = append(out, c.pos(st.Pos()))
+										}
+									}
+								}
+							}
+						}
 					}
 					if fa, ok := st.Addr.(*ssa.FieldAddr); ok {
 						if deref(fa.X.Type()).Underlying().(*types.Struct).Field(fa.Field) == fld {
